@@ -209,7 +209,8 @@ def finish(cx, error=None):
     out = []
     for v in listed:
         out.append('KNOWN-FINDING: property=%s %s' % (pid, known_keys[v['key']].get('what', v['detail'])))
-    replay_dir = os.path.join(VERIF, 'replay', pid)
+    out_root = getattr(cx, 'out_dir', None) or VERIF
+    replay_dir = os.path.join(out_root, 'replay', pid)
     for v in unlisted:
         os.makedirs(replay_dir, exist_ok=True)
         name = hashlib.sha1(v['key'].encode()).hexdigest()[:12] + '.json'
@@ -262,8 +263,8 @@ def finish(cx, error=None):
         'wall_s': round(time.time() - cx.t0, 3),
         'violations': len(unlisted),
     }
-    os.makedirs(os.path.join(VERIF, 'evidence'), exist_ok=True)
-    with open(os.path.join(VERIF, 'evidence', pid + '.json'), 'w') as f:
+    os.makedirs(os.path.join(out_root, 'evidence'), exist_ok=True)
+    with open(os.path.join(out_root, 'evidence', pid + '.json'), 'w') as f:
         json.dump(ev, f, indent=1, sort_keys=True, default=str)
     print('%s [%s]: %d obligations, %d discharged, %d violated (%d listed as known), rules: %s, %.2fs'
           % (pid, cx.tier, n_ob, n_ok, len(cx.violations), len(listed),
